@@ -107,7 +107,7 @@ def present(np, x, y, k):
         bx[:] = x
         by[:] = y
         return bx, by, how
-    if how == "integer" and not all(float(v).is_integer() for v in list(x) + list(y)):
+    if how == "integer" and not all(float(v).is_integer() and abs(v) < 2 ** 31 for v in list(x) + list(y)):
         how = "readonly"
     if how == "float64":
         return np.array(x, dtype=float), np.array(y, dtype=float), how
